@@ -75,6 +75,28 @@ class Real:
     def remove(self, p):
         os.remove(self.path(p))
 
+    def mkfile(self, p, text='x'):
+        with open(self.path(p), 'w') as f:
+            f.write(text)
+
+    def mkdir(self, p):
+        os.makedirs(self.path(p), exist_ok=True)
+
+    def symlink(self, target, p):
+        os.symlink(self.path(target), self.path(p))
+
+    def listing(self, p):
+        full = self.path(p)
+        if not os.path.lexists(full):
+            return None
+        if not os.path.isdir(full) or os.path.islink(full):
+            return 'file'
+        out = []
+        for dp, dns, fns in os.walk(full, followlinks=False):
+            for nm in dns + fns:
+                out.append(os.path.relpath(os.path.join(dp, nm), full))
+        return sorted(out)
+
     def resize(self, p, delta):
         fp = self.path(p)
         if delta > 0:
@@ -213,6 +235,34 @@ class Model:
 
     def remove(self, p):
         symfs.unlink(self.path(p))
+
+    def mkfile(self, p, text='x'):
+        f = symfs.File()
+        f.text = text
+        f.bin = None
+        self.world.put(self.path(p), f)
+
+    def mkdir(self, p):
+        self.world.mkdirs(self.path(p))
+
+    def symlink(self, target, p):
+        self.world.put(self.path(p), symfs.Symlink(self.path(target)))
+
+    def listing(self, p):
+        node = self.world.lookup(self.path(p), follow=False)
+        if node is None:
+            return None
+        if not isinstance(node, symfs.Dir):
+            return 'file'
+        out = []
+
+        def walk(d, rel):
+            for k, v in d.entries.items():
+                out.append(os.path.normpath(os.path.join(rel, k)))
+                if isinstance(v, symfs.Dir):
+                    walk(v, os.path.join(rel, k))
+        walk(node, '.')
+        return sorted(out)
 
     def resize(self, p, delta):
         node = self.world.lookup(self.path(p))
@@ -563,8 +613,68 @@ def baddescr(B):
     attempt(B, 'rtr', lambda: d.truncate_raggedarray(B.path('r'), 0))
 
 
+def foreign(B):
+    d = B.darr
+    B.mkdir('outside/tdir')
+    B.mkfile('outside/tdir/keep.txt')
+    B.mkfile('outside/target.txt')
+    for i, kind in enumerate(['none', 'file', 'dir', 'dirfile', 'linkfile', 'linkdir', 'collide']):
+        for tgt in ('a', 'r'):
+            tag = f'{tgt}{i}'
+            if tgt == 'a':
+                d.asarray(B.path(tag), B.arr('x' + tag, 2, (), 'int32', 'little'))
+                where = tag
+            else:
+                d.asraggedarray(B.path(tag), [B.arr('x' + tag, 2, (), 'int32', 'little')])
+                where = tag + ('/values' if i % 2 else '/indices' if i % 3 == 0 else '')
+            if kind == 'file':
+                B.mkfile(where + '/notes.txt')
+            elif kind == 'dir':
+                B.mkdir(where + '/sub')
+            elif kind == 'dirfile':
+                B.mkdir(where + '/sub')
+                B.mkfile(where + '/sub/inner.txt')
+            elif kind == 'linkfile':
+                B.symlink('outside/target.txt', where + '/link')
+            elif kind == 'linkdir':
+                B.symlink('outside/tdir', where + '/linkd')
+            elif kind == 'collide':
+                B.mkdir(where + '/metadata.json')
+                B.mkfile(where + '/metadata.json/inner.txt')
+            if tgt == 'a':
+                attempt(B, 'del' + tag, lambda: d.delete_array(B.path(tag)))
+            else:
+                attempt(B, 'del' + tag, lambda: d.delete_raggedarray(B.path(tag)))
+            B.obs.append(('ls' + tag, B.listing(tag)))
+    B.obs.append(('outside', B.listing('outside')))
+    # creators on occupied paths
+    d.asarray(B.path('occ'), B.arr('occ', 3, (), 'float64', 'little'), metadata={'old': 1})
+    B.mkfile('occ/user.txt')
+    attempt(B, 'as_no', lambda: d.asarray(B.path('occ'), B.arr('n1', 2, (), 'int32', 'little')))
+    attempt(B, 'cr_no', lambda: d.create_array(B.path('occ'), shape=(2,)))
+    attempt(B, 'ras_no', lambda: d.asraggedarray(B.path('occ'), [B.arr('n2', 2, (), 'int32', 'little')]))
+    attempt(B, 'rcr_no', lambda: d.create_raggedarray(B.path('occ')))
+    B.obs.append(('occ1', B.dump('occ')))
+    attempt(B, 'as_ow', lambda: d.asarray(B.path('occ'), B.arr('n3', 2, (), 'int32', 'little'), overwrite=True))
+    B.obs.append(('occ2', B.dump('occ'), B.listing('occ')))
+    attempt(B, 'ras_ow', lambda: d.asraggedarray(B.path('occ'), [B.arr('n4', 2, (), 'int32', 'little')], overwrite=True))
+    B.obs.append(('occ3', B.listing('occ')))
+    B.mkfile('plainfile')
+    attempt(B, 'as_file', lambda: d.asarray(B.path('plainfile'), B.arr('n5', 2, (), 'int32', 'little')))
+    attempt(B, 'as_file_ow', lambda: d.asarray(B.path('plainfile'), B.arr('n6', 2, (), 'int32', 'little'), overwrite=True))
+    attempt(B, 'del_file', lambda: d.delete_array(B.path('plainfile')))
+    B.obs.append(('plain', B.listing('plainfile')))
+    a = d.asarray(B.path('src'), B.arr('src', 2, (), 'int32', 'little'))
+    attempt(B, 'copy_no', lambda: a.copy(B.path('occ')))
+    attempt(B, 'arch', lambda: a.archive(B.path('arc.tar.xz')))
+    attempt(B, 'arch_again', lambda: a.archive(B.path('arc.tar.xz')))
+    attempt(B, 'arch_ow', lambda: a.archive(B.path('arc.tar.xz'), overwrite=True))
+    attempt(B, 'arch_bad', lambda: a.archive(B.path('arc2'), compressiontype='zip'))
+    B.obs.append(('arc', B.listing('arc.tar.xz'), B.listing('arc2')))
+
+
 SCENARIOS = {f.__name__: f for f in [array_basic, array_append, array_truncate, array_assign,
-                                        array_failappend, ragged_basic, ragged_fail, readonly, metadata, baddescr]}
+                                        array_failappend, ragged_basic, ragged_fail, readonly, metadata, baddescr, foreign]}
 
 
 def run(names, stub_readme=True):
